@@ -36,8 +36,16 @@ Definition e_cmd_start : N := 130.
 
 (* RunInspections, one iteration: record, run, record; the link is then dumped as <name>.link into
    the current directory, which is the run directory unless an explicit one was given *)
+(* an entry of the run directory that cannot be recorded - a symbolic link whose target does not exist - is listed
+   with the digest "!": recording the directory (materials are recorded before the command is started) then fails *)
+Definition unreadable_mark : str := bs "!".
+Definition e_record : N := 131.
+Definition world_recordable (w : world) : bool :=
+  negb (existsb (fun f => str_eqb (snd f) unreadable_mark) (w_files w)).
+
 Definition run_insp_tbl (cmds : list (list str * cmdkind)) (dsse : bool) (w : world) (i : inspection)
   : res (link * world) :=
+  if negb (world_recordable w) then Err e_record else
   let mats := record_world w in
   let finish (w' : world) (bp : list (str * jv)) :=
       let l := mkLink (bs "link") (i_name i) mats (record_world w') bp (i_run i) [] in
